@@ -1857,7 +1857,103 @@ fn slot_family(rep: &mut Report) {
     rep.absorb("U-slots", "arrays and arrays of tables of 1-4 elements x every assignment of {kept, vacated, overwritten with the wrong kind of item} to the slots: iter(), into_iter() and the printed text must show the same elements", n, true, t0, acc);
 }
 
+/// (c) a sort must not reach into what it does not own: non-dotted inline tables, arrays of inline tables, sub-tables and
+/// arrays of tables below the sorted container keep their own entry order ("doesn't affect subtables or subarrays")
+fn sort_depth_case(perm: &[usize], inline: bool, which: usize) -> Result<(), String> {
+    const VALS: [&str; 4] = ["v = { z = 1, a = 2, m = { y = 1, b = 2 } }", "w = [{ z = 1, a = 2 }, { y = 1, b = 2 }]", "s = 0", "d.z = { q = 1, c = 2 }"];
+    let parts: Vec<&str> = perm.iter().map(|i| VALS[*i]).collect();
+    fn keys_of(t: &dyn TableLike) -> String {
+        t.iter().map(|(k, _)| k.to_string()).collect::<Vec<_>>().join(",")
+    }
+    fn inner(t: &dyn TableLike) -> Result<String, String> {
+        let mut out = Vec::new();
+        let v = t.get("v").and_then(|i| i.as_inline_table()).ok_or("v lost")?;
+        out.push(format!("v:{}", keys_of(v)));
+        out.push(format!("v.m:{}", keys_of(v.get("m").and_then(|m| m.as_inline_table()).ok_or("v.m lost")?)));
+        let w = t.get("w").and_then(|i| i.as_array()).ok_or("w lost")?;
+        for (i, e) in w.iter().enumerate() {
+            out.push(format!("w[{}]:{}", i, keys_of(e.as_inline_table().ok_or("w element lost")?)));
+        }
+        let dz = t.get("d").and_then(|d| d.as_table_like()).and_then(|d| d.get("z")).and_then(|z| z.as_inline_table()).ok_or("d.z lost")?;
+        out.push(format!("d.z:{}", keys_of(dz)));
+        if let Some(tt) = t.get("t").and_then(|i| i.as_table()) {
+            out.push(format!("t:{}", keys_of(tt)));
+            out.push(format!("t.i:{}", keys_of(tt.get("i").and_then(|m| m.as_inline_table()).ok_or("t.i lost")?)));
+        }
+        if let Some(u) = t.get("u").and_then(|i| i.as_array_of_tables()) {
+            for (i, e) in u.iter().enumerate() {
+                out.push(format!("u[{}]:{}", i, keys_of(e)));
+            }
+        }
+        Ok(out.join(" "))
+    }
+    let cmp = |w: usize, k1: &str, k2: &str| match w {
+        1 => k2.cmp(k1),
+        2 => k1.len().cmp(&k2.len()).then(k1.cmp(k2)),
+        _ => k1.cmp(k2),
+    };
+    let (before, after, top) = if inline {
+        let mut v: Value = format!("{{ {} }}", parts.join(", ")).parse().map_err(|e: toml_edit::TomlError| format!("start value rejected: {}", e.message()))?;
+        let t = v.as_inline_table_mut().ok_or("not an inline table")?;
+        let before = inner(t)?;
+        match which {
+            0 => t.sort_values(),
+            3 => {
+                let tl: &mut dyn TableLike = t;
+                tl.sort_values();
+            }
+            w => t.sort_values_by(|k1, _, k2, _| cmp(w, k1.get(), k2.get())),
+        }
+        (before, inner(t)?, keys_of(t))
+    } else {
+        let text = format!("{}\n[t]\nz = 1\na = 2\ni = {{ y = 1, b = 2 }}\n[[u]]\nz = 1\na = 2\n[[u]]\ny = 1\nb = 2\n", parts.join("\n"));
+        let mut d: toml_edit::DocumentMut = text.parse().map_err(|e: toml_edit::TomlError| format!("start document rejected: {}", e.message()))?;
+        let t = d.as_table_mut();
+        let before = inner(t)?;
+        match which {
+            0 => t.sort_values(),
+            3 => {
+                let tl: &mut dyn TableLike = t;
+                tl.sort_values();
+            }
+            w => t.sort_values_by(|k1, _, k2, _| cmp(w, k1.get(), k2.get())),
+        }
+        (before, inner(t)?, keys_of(t))
+    };
+    if before != after {
+        return Err(format!("the sort reordered entries of a container it does not own: before [{}], after [{}]", before, after));
+    }
+    let mut want: Vec<&str> = top.split(',').collect();
+    let got = want.clone();
+    want.sort_by(|a, b| cmp(if which == 3 { 0 } else { which }, a, b));
+    if got != want {
+        return Err(format!("top-level order after the sort [{}], reference [{}]", got.join(","), want.join(",")));
+    }
+    Ok(())
+}
+
 fn sort_family(rep: &mut Report, tier: Tier) {
+    // (c) what a sort must leave alone
+    {
+        let t0 = std::time::Instant::now();
+        let perms = permutations(4);
+        let cases: Vec<(usize, bool, usize)> = (0..perms.len()).flat_map(|p| [false, true].into_iter().flat_map(move |inl| (0..4).map(move |w| (p, inl, w)))).collect();
+        let mut acc = Acc::default();
+        for (p, inl, w) in &cases {
+            acc.evals += 1;
+            let label = format!("{} holding an inline table, an array of inline tables, a scalar and a dotted table (order {:?}){}, then {}", if *inl { "inline table" } else { "root table" }, perms[*p], if *inl { "" } else { ", a sub-table and an array of tables" }, ["sort_values", "sort_values_by(reversed keys)", "sort_values_by(key length, key)", "dyn TableLike::sort_values"][*w]);
+            acc.nontrivial(label.as_bytes());
+            match guarded(|| sort_depth_case(&perms[*p], *inl, *w)) {
+                Ok(Ok(())) => acc.bump("sort-agrees"),
+                Ok(Err(e)) => acc.viol("U-sort", label, None, e),
+                Err(p) => acc.viol("U-sort", label, None, format!("panic: {}", p)),
+            }
+        }
+        let n = cases.len() as u64;
+        rep.transitions = Some(rep.transitions.unwrap_or(0) + n);
+        rep.traces_validated += n;
+        rep.absorb("U-sort(depth)", "root table / inline table holding a non-dotted inline table (nested twice), an array of inline tables, a scalar, a dotted table with an inline-table leaf (every order), a sub-table and an array of tables x 4 sort calls: the children's own entry order must not change", n, true, t0, acc);
+    }
     // (a) dotted children
     let t0 = std::time::Instant::now();
     // every non-empty subset of the paths in every order (a parent with ONE entry that is a dotted table matters too)
